@@ -10,6 +10,16 @@ points recovered from small / adjacent x-coordinates as operands. Plus the memch
 Every operand-relation / scalar class of the statement is counted per configuration ("toy|", "pure|", "openssl|" counters) and
 required there: a class that is reached only on toy curves, or an OpenSSL backend that silently did not load on a machine that
 has libcrypto, makes the run inconclusive instead of "held".
+
+State between calls (all counted and required per configuration): (A) calls the library refuses - None / float / str / bytes /
+list / Decimal / Fraction / complex where an integer is expected, non-points where a point is expected, off-curve points, x without
+a point - are placed between judged calls on the same generator objects (and their siblings built with other entropy); only the
+judged calls that FOLLOW are verdicts. (B) one long-run shard makes more than 2^16 (thorough: 2^17) blinded products on ONE
+generator object, each compared with a running sum of the reference, together with one Point addition, negation, construction
+per step. (C) lists passed where the API takes a pair are not modified and a second call agrees. (D) every way a caller obtains
+a point (14 producers) x every operation that takes one (11 consumers), also across sibling generator objects of one curve; and
+"twins": two live generators of different curves (or two objects of one curve) whose base points have equal coordinates, the
+same question put to one and then the other.
 """
 import math
 
@@ -28,7 +38,10 @@ RULE = ("a case is one monitored operation (curve, backend, operation, operand-r
         "(points recovered from small / adjacent x, both operand orders) and scalars cancelling the blinding factor. Scalar "
         "classes and operand relations are forced by rotation, so each is reached in each configuration (required per "
         "configuration: toy / pure / openssl). At least 20% of big-curve cases must be non-generic or the run is "
-        "inconclusive. Toy curves are enumerated exhaustively. Distinct by all of the above; every counted case is non-trivial.")
+        "inconclusive. Toy curves are enumerated exhaustively. Distinct by all of the above; every counted case is non-trivial. "
+        "State classes: judged calls that follow refused calls of each family (errpath.*), one long run of > 2^16 products on one "
+        "generator object (a case per step), list arguments (mutable.*), producer x consumer pairs (chain.*), twin generators "
+        "with equal base-point coordinates in three flavours (twin.*): each required.")
 ASSUMPTIONS = [
     "reference arithmetic vmon/refs/ec.py is correct: textbook affine chord-tangent law, cross-checked on every run against "
     "its own Jacobian ladder, exhaustive closure / commutativity / associativity / order on toy curves, n*G = infinity on the "
@@ -52,6 +65,16 @@ ASSUMPTIONS = [
     "backends are compared on point coordinates; inverse_mod results of two backends are compared as residues",
     "the Generator instance is itself a Point and is used as an operand of +, - and unary minus",
     "libsecp256k1 is not installed in this environment: that backend is recorded absent",
+    "a refused call (any exception) is never judged, nor is a call with a non-integer scalar / non-point operand that the library "
+    "happens to accept; the statement is read as: valid calls return the group law whatever calls were refused before them",
+    "a list [x, y] where the API documents 'a pair' (ECDH peer key, Generator basis, operand of Curve.add / Point + ) is judged only "
+    "if the library accepts it: then the result must be the group law, the list must be unchanged and a second call must agree",
+    "points of a sibling generator object of the same curve (other blinding entropy, other backend) mixed with points of the "
+    "generator under test: a wrong result is a violation, a refusal is not (the statement does not oblige mixing objects)",
+    "twin generators share base-point coordinates only on toy curves (a second 256-bit curve of known prime order through "
+    "secp256k1's G is not available); any non-identity point of a prime-order toy curve is used as base point",
+    "the long run uses the module generator with the native backend (2^16 pure-Python 256-bit products do not fit the budget); "
+    "without a native backend it runs on the pure generator of the largest toy curve (same Generator code)",
 ]
 EXPLANATION = ("every result of the real library is compared with the reference group law; toy curves exhaustively, large "
                "curves with forced operand relations and structured scalars, in the pure and OpenSSL configurations")
@@ -69,11 +92,38 @@ def configurations(tier):
             "secp256k1, secp256r1, bls12_381_g1 / pure Python worker (PYCOIN_NATIVE=none)",
             "secp256k1, secp256r1, bls12_381_g1 / in-process pure Generator(p,a,b,G,n), compared coordinate-for-coordinate with OpenSSL",
             "generators rebuilt with adversarial blinding entropy", "valgrind memcheck over the OpenSSL path",
+            "one generator object used for more than 2^16 products in one process (long run)",
+            "two generators with equal base-point coordinates alive in one process (other curve same field / other field / same curve)",
             "libsecp256k1: absent (not installed)"]
 
 
 def _toy_params(c):
     return [c.p, c.a, c.b, c.G[0], c.G[1], c.n]
+
+
+def _twin_specs(toys, rng, count):
+    """pairs of toy curves with a common affine point H used as base point of both (any non-identity point generates a
+    group of prime order): same field / other field / the same curve twice (two objects)."""
+    out = []
+    pool = [t for t in toys if t.n >= 11]
+    tries = 0
+    while len(out) < count and tries < 4000:
+        tries += 1
+        fl = TWIN_FLAVOURS[len(out) % len(TWIN_FLAVOURS)]
+        A = rng.choice(pool)
+        H = rng.choice(A.all_points())
+        if fl == "same_curve_two_objects":
+            B = A
+        else:
+            B = None
+            for T in rng.sample(pool, 400):
+                if (T.p == A.p) == (fl == "same_field") and (T.p, T.a, T.b) != (A.p, A.a, A.b) and T.on_curve(H):
+                    B = T
+                    break
+            if B is None:
+                continue
+        out.append({"A": [A.p, A.a, A.b, H[0], H[1], A.n], "B": [B.p, B.a, B.b, H[0], H[1], B.n], "flavour": fl})
+    return out
 
 
 def plan(tier, seed):
@@ -94,6 +144,10 @@ def plan(tier, seed):
         shards.append({"kind": "big", "curve": "bls12_381_g1", "gen": "module", "ops": 40, "cross": 0, "label": "bls12_381_g1/pure"})
         shards.append({"kind": "big", "curve": "bls12_381_g1", "gen": "module", "ops": 40, "cross": 0, "env": NONE_ENV, "label": "bls12_381_g1/pure-env"})
         shards.append({"kind": "memcheck", "iterations": 10, "vg_timeout": 400, "label": "memcheck"})
+        shards.append({"kind": "longrun", "curve": "secp256k1", "count": (1 << 16) + 100, "label": "longrun secp256k1"})
+        srng = shard_rng(seed, PROPERTY, tier, "plan-state")
+        shards.append({"kind": "state", "curves": [_toy_params(c) for c in srng.sample([c for c in toys if c.n >= 7], 6)],
+                       "twins": _twin_specs(toys, srng, 12), "label": "state x6, twins x12"})
     else:
         toys = ec.toy_curves(80)
         low = [c for c in toys if c.p <= 47]
@@ -115,7 +169,12 @@ def plan(tier, seed):
             shards.append({"kind": "big", "curve": "bls12_381_g1", "gen": "module", "ops": 200, "cross": 0, "label": "bls12_381_g1/pure"})
         shards.append({"kind": "big", "curve": "bls12_381_g1", "gen": "module", "ops": 200, "cross": 0, "env": NONE_ENV, "label": "bls12_381_g1/pure-env"})
         shards.append({"kind": "memcheck", "iterations": 300, "vg_timeout": 3000, "label": "memcheck"})
-    shards.sort(key=lambda s: {"memcheck": 0, "big": 1, "toy": 2}[s["kind"]])
+        shards.append({"kind": "longrun", "curve": "secp256k1", "count": (1 << 17) + 100, "label": "longrun secp256k1"})
+        srng = shard_rng(seed, PROPERTY, tier, "plan-state")
+        for i in range(6):
+            shards.append({"kind": "state", "curves": [_toy_params(c) for c in srng.sample([c for c in toys if c.n >= 7], 8)],
+                           "twins": _twin_specs(toys, srng, 15), "label": "state x8, twins x15"})
+    shards.sort(key=lambda s: {"longrun": -1, "memcheck": 0, "big": 1, "state": 2, "toy": 2}[s["kind"]])
     return shards
 
 
@@ -308,6 +367,12 @@ BIG_CLASSES = ["add.near_x", "mul.small_x_point", "gmul.scalar_cancels_blinding"
 def cev(ctx, name):
     ctx.rec.ev(name)
     ctx.rec.ev(ctx.tag + "|" + name)
+
+
+def require_state_classes(ctx):
+    """class A (refused calls between judged calls) and class C (caller-owned lists) were reached in this configuration"""
+    ctx.rec.require(*[ctx.tag + "|errpath." + f for f in ERR_FAMILIES])
+    ctx.rec.require(ctx.tag + "|mutable.calls")
 
 
 def require_classes(ctx):
@@ -661,9 +726,692 @@ def judge_backend(ctx, case):
             rec.violation("backend.coordinates_differ." + op, dict(case, op=op), [t1, t2], "identical results")
 
 
+
+
+# ---------------------------------------------------------------------------------------------
+# class A: calls the library refuses (a None / float / str ... where an integer or a point is expected, an off-curve
+# point, an x without a point) placed between judged calls on the same objects. A refusal is never judged; what is
+# judged is the NEXT valid call (the ordinary judges, same objects, same process).
+
+BAD_KINDS = ["none", "float", "half", "str", "hex", "bytes", "list", "tuple", "decimal", "fraction", "complex"]
+BAD_POINT_KINDS = ["pt_short", "pt_long", "pt_none_y", "pt_none_x", "pt_off", "pt_str", "pt_float"]
+
+
+def mk_bad(kind, v, p=0):
+    """a value a caller passes by mistake in place of the integer v (or, pt_*, of the point v): near-misses of the valid
+    argument of the judged call that follows (float(v) == v, str(v) prints v, ...)."""
+    from decimal import Decimal
+    from fractions import Fraction
+    try:
+        if kind == "none":
+            return None
+        if kind == "float":
+            return float(v)
+        if kind == "half":
+            return float(v) + 0.5
+        if kind == "str":
+            return str(v)
+        if kind == "hex":
+            return "%x" % abs(v)
+        if kind == "bytes":
+            return abs(v).to_bytes((abs(v).bit_length() + 7) // 8 or 1, "big")
+        if kind == "list":
+            return [v]
+        if kind == "tuple":
+            return (v,)
+        if kind == "decimal":
+            return Decimal(v)
+        if kind == "fraction":
+            return Fraction(v)
+        if kind == "complex":
+            return complex(v)
+        x, y = v
+        if kind == "pt_short":
+            return (x,)
+        if kind == "pt_long":
+            return (x, y, 1)
+        if kind == "pt_none_y":
+            return (x, None)
+        if kind == "pt_none_x":
+            return (None, y)
+        if kind == "pt_off":
+            return (x, (y + 1) % p)
+        if kind == "pt_str":
+            return (str(x), str(y))
+        if kind == "pt_float":
+            return (float(x), float(y))
+    except (OverflowError, ValueError):
+        return None
+    raise KeyError(kind)
+
+
+class Env:
+    pass
+
+
+def _refusals():
+    from pycoin.ecdsa.encrypt import generate_shared_public_key as gspk
+    # (family, name, what the bad value stands in for, call)
+    return [
+        ("gmul", "G*x", "k", lambda e, b: e.g * b),
+        ("gmul", "x*G", "k", lambda e, b: b * e.g),
+        ("gmul", "raw_mul", "k", lambda e, b: e.g.raw_mul(b)),
+        ("mul", "P*x", "k", lambda e, b: e.P * b),
+        ("mul", "x*P", "k", lambda e, b: b * e.P),
+        ("mul", "multiply", "k", lambda e, b: e.g.multiply(e.P, b)),
+        ("add", "P+x", "P", lambda e, b: e.P + b),
+        ("add", "P-x", "P", lambda e, b: e.P - b),
+        ("add", "G+x", "P", lambda e, b: e.g + b),
+        ("add", "add", "P", lambda e, b: e.g.add(e.P, b)),
+        ("lift", "points_for_x", "x", lambda e, b: e.g.points_for_x(b)),
+        ("construct", "Point(x,_)", "x", lambda e, b: e.g.Point(b, e.Pv[1])),
+        ("construct", "Point(_,y)", "y", lambda e, b: e.g.Point(e.Pv[0], b)),
+        ("construct", "contains_point", "x", lambda e, b: e.g.contains_point(b, e.Pv[1])),
+        ("inverse_mod", "inverse_mod", "k", lambda e, b: e.g.inverse_mod(b, e.n)),
+        ("ecdh", "ecdh(x,_)", "k", lambda e, b: gspk(b, e.Pv, e.g)),
+        ("ecdh", "ecdh(_,x)", "P", lambda e, b: gspk(e.k, b, e.g)),
+    ]
+
+
+ERR_FAMILIES = ["gmul", "mul", "add", "lift", "construct", "inverse_mod", "ecdh"]
+
+
+def refuse_family(ctx, fam, k, Pv, ent=None):
+    """every refused call of one family, every kind of bad value, on the generator under test (and, for the blinded
+    products, on the sibling built with entropy `ent`). Returns how many of them the library refused."""
+    rec, c = ctx.rec, ctx.c
+    targets = [ctx.g]
+    if ent is not None and fam == "gmul":
+        st, gb = observe(blinded_generator, ctx, ent)
+        if st == "ok":
+            targets.append(gb[0])
+    refused = 0
+    for g in targets:
+        e = Env()
+        e.g, e.k, e.n, e.Pv = g, k, c.n, Pv
+        st, e.P = observe(g.Point, Pv[0], Pv[1])
+        if st != "ok":
+            return 0
+        for f, name, stands_for, call in _refusals():
+            if f != fam:
+                continue
+            if stands_for == "P":
+                bads = [mk_bad(kd, k) for kd in BAD_KINDS] + [mk_bad(kd, Pv, c.p) for kd in BAD_POINT_KINDS]
+            else:
+                v = {"k": k, "x": Pv[0], "y": Pv[1]}[stands_for]
+                bads = [mk_bad(kd, v) for kd in BAD_KINDS]
+            for b in bads:
+                st, _ = observe(call, e, b)
+                refused += st == "exc"
+                rec.ev("errpath.call_refused" if st == "exc" else "errpath.call_not_refused")
+    return refused
+
+
+def errpath_round(ctx, rng, rnd, ent=None):
+    """one round: for each family the refused calls, then the judged calls of that family on the same objects with the
+    valid arguments the bad values were near-misses of."""
+    rec, c, n, p = ctx.rec, ctx.c, ctx.c.n, ctx.c.p
+    L = lambda P: list(P) if P else None
+    k = [rng.randrange(2, 1 << 20), rng.randrange(1 << 40, 1 << 53), rng.randrange(1, n), rng.randrange(n, 1 << 258)][rnd % 4]
+    if rnd % 3 == 2:
+        k = -k
+    if k % n == 0:
+        k += 1
+    Pv = c.mul(rng.randrange(1, n), c.G)
+    Qv = c.mul(rng.randrange(1, n), c.G)
+    done = []
+    for fam in ERR_FAMILIES:
+        refused = refuse_family(ctx, fam, k, Pv, ent)
+        done.append(fam)
+        if not refused:
+            rec.ev("errpath.nothing_refused." + fam)
+            continue
+        cev(ctx, "errpath." + fam)
+        tail = {"after_refused": {"families": list(done), "k": k, "P": L(Pv), "entropy": ent}}
+        if fam == "gmul":
+            judge_gmul(ctx, base_case(ctx, "gmul", k=k, entropy=None, **tail))
+            if ent is not None:
+                judge_gmul(ctx, base_case(ctx, "gmul", k=k, entropy=ent, **tail))
+            judge_gmul(ctx, base_case(ctx, "gmul", k=rng.randrange(-n, 2 * n), entropy=ent, **tail))
+        elif fam == "mul":
+            judge_mul(ctx, base_case(ctx, "mul", P=L(Pv), k=k, **tail))
+            judge_mul(ctx, base_case(ctx, "mul", P=L(c.G), k=k + 1, **tail))
+        elif fam == "add":
+            judge_add(ctx, base_case(ctx, "add", P=L(Pv), Q=L(Qv), **tail))
+            judge_add(ctx, base_case(ctx, "add", P=L(c.G), Q=L(Pv), gobj="P", **tail))
+            judge_add(ctx, base_case(ctx, "add", P=L(Pv), Q=L(Pv), **tail))
+            judge_sub(ctx, base_case(ctx, "sub", P=L(Pv), Q=L(Qv), **tail))
+            judge_neg(ctx, base_case(ctx, "neg", P=L(Pv), **tail))
+        elif fam == "lift":
+            judge_lift(ctx, base_case(ctx, "lift", x=Pv[0], **tail))
+            x = rng.randrange(p)
+            for _ in range(64):
+                if c.lift_x(x) is None:
+                    break
+                x = rng.randrange(p)
+            judge_lift(ctx, base_case(ctx, "lift", x=x, **tail))       # refused by the statement itself ...
+            judge_lift(ctx, base_case(ctx, "lift", x=x, **tail))       # ... and still refused when asked again
+            judge_lift(ctx, base_case(ctx, "lift", x=Qv[0], **tail))
+        elif fam == "construct":
+            judge_construct(ctx, base_case(ctx, "construct", x=Pv[0], y=(Pv[1] + 1) % p, **tail))
+            judge_construct(ctx, base_case(ctx, "construct", x=Pv[0], y=(Pv[1] + 1) % p, **tail))
+            judge_construct(ctx, base_case(ctx, "construct", x=Pv[0], y=Pv[1], **tail))
+        elif fam == "inverse_mod":
+            judge_inverse_mod(ctx, base_case(ctx, "inverse_mod", a=k, m=n, **tail))
+            judge_inverse_mod(ctx, base_case(ctx, "inverse_mod", a=abs(k) % p or 1, m=p, **tail))
+        elif fam == "ecdh":
+            judge_ecdh(ctx, base_case(ctx, "ecdh", a=k % n, b=rng.randrange(1, n), **tail))
+    # and once more the blinded product, after every family was through
+    judge_gmul(ctx, base_case(ctx, "gmul", k=k + 1, entropy=ent, after_refused={"families": list(done), "k": k, "P": L(Pv), "entropy": ent}))
+
+
+def replay_refusals(ctx, case):
+    ar = case.get("after_refused")
+    if ar:
+        # in the run the objects had served valid calls before the refused ones
+        observe(lambda: (ctx.g * 1, ctx.g * 2, ctx.g.points_for_x(ctx.c.G[0])))
+        if ar.get("entropy") is not None:
+            observe(lambda: blinded_generator(ctx, ar["entropy"])[0] * 1)
+        for fam in ar["families"]:
+            refuse_family(ctx, fam, ar["k"], tuple(ar["P"]), ar.get("entropy"))
+
+
+# ---------------------------------------------------------------------------------------------
+# class C: caller-owned mutable arguments (lists where the API takes "a pair" today) are not modified, a second call with
+# the same object gives the same answer, and editing the list afterwards changes nothing the library returns later
+
+def judge_mutable(ctx, case):
+    rec, c, g = ctx.rec, ctx.c, ctx.g
+    from pycoin.ecdsa.encrypt import generate_shared_public_key as gspk
+    op, k = case["op"], case["k"]
+    pair = [int(v) for v in case["pair"]]
+    before = list(pair)
+    modp = is_unreduced(c, tuple(pair))
+    Pv = red(c, tuple(pair))
+    rec.ev("mutable." + op)
+    rec.ev("class:nongeneric")
+    cev(ctx, "mutable.calls")
+    rec.case(("mutable", ctx.curve_id, ctx.cfg, op, k, tuple(pair)))
+    if op == "ecdh":
+        call = lambda: gspk(k, pair, g)
+        exp = c.mul(k, Pv)
+    elif op == "add":
+        Qv = c.mul(k, c.G)
+        st, Q = observe(to_py, ctx, Qv)
+        if st != "ok":
+            return
+        call = lambda: Q + pair
+        exp = c.add(Qv, Pv)
+    elif op == "curve_add":
+        Qv = c.mul(k, c.G)
+        other = list(Qv) if Qv else None
+        call = lambda: g.add(pair, other if other is not None else g.infinity())
+        exp = c.add(Pv, Qv)
+    else:       # "basis": a generator built from a list; the caller edits the list afterwards
+        call = lambda: type(g)(c.p, c.a, c.b, pair, c.n)
+        exp = None
+    st1, r1 = observe(call)
+    changed = pair != before or any(type(v) is not int for v in pair)
+    if changed:
+        rec.violation("mutable.argument_modified." + op, case, pair, before)
+        pair[:] = before
+    if st1 != "ok":
+        rec.ev("mutable.refused." + op)          # a library that does not take lists here is not judged
+        return
+    cev(ctx, "mutable.accepted")
+    if op == "basis":
+        g2 = r1
+        ask = lambda: (tuple(g2), from_py(g2 * k), from_py(g2.raw_mul(k)))
+        st0, got0 = observe(ask)
+        pair[0] += 1
+        pair[1] = 0
+        st, got = observe(ask)
+        want = (Pv, c.mul(k, Pv), c.mul(k, Pv))
+        if (st0, got0) != ("ok", want):
+            rec.violation("mutable.wrong.basis", case, got0, want)
+        elif (st, got) != ("ok", want):
+            rec.violation("mutable.caller_edit_changes_answer.basis", case, got, want)
+        return
+    st2, r2 = observe(call)
+    if pair != before:
+        rec.violation("mutable.argument_modified." + op, case, pair, before)
+    got1 = from_py(r1)
+    if not same(c, got1, exp, modp):
+        rec.violation("mutable.wrong." + op, case, got1, exp)
+    elif st2 != "ok" or from_py(r2) != got1:
+        rec.violation("mutable.second_call_differs." + op, case, [got1, r2], exp)
+
+
+def mutable_round(ctx, rng, rnd, basis=True):
+    c, n = ctx.c, ctx.c.n
+    Pv = c.mul(rng.randrange(1, n), c.G)
+    k = rng.randrange(1, n)
+    for pair in (Pv, unreduce(c, rng, Pv)):
+        for op in ("ecdh", "add", "curve_add"):
+            judge_mutable(ctx, base_case(ctx, "mutable", op=op, k=k, pair=list(pair)))
+    if basis:
+        judge_mutable(ctx, base_case(ctx, "mutable", op="basis", k=k, pair=list(c.G)))
+
+
+# ---------------------------------------------------------------------------------------------
+# class D (1): every producer of a point x every consumer of a point. A point of known value a*G is obtained from the
+# library in one of the ways a caller gets points, then handed to each operation that takes a point; optionally the
+# producer is a SIBLING generator object of the same curve (other blinding, other backend): equal by value, distinct objects.
+
+PRODUCERS = ["Point", "lift", "gmul", "rmul", "raw_mul", "mul", "add", "sub", "neg", "ecdh", "gobj", "infinity", "zero_mul", "order_mul", "point_none"]
+CONSUMERS = ["add", "radd", "sub", "rsub", "neg", "mul", "rmul", "ecdh", "construct", "lift", "double"]
+
+
+def produce(ctx, g, prod, a, V):
+    from pycoin.ecdsa.encrypt import generate_shared_public_key as gspk
+    c = ctx.c
+    mk = lambda T: g.infinity() if T is None else g.Point(T[0], T[1])
+    if prod == "Point":
+        return mk(V)
+    if prod == "lift":
+        return [T for T in g.points_for_x(V[0]) if T[1] == V[1]][0]
+    if prod == "gmul":
+        return g * a
+    if prod == "rmul":
+        return a * g
+    if prod == "raw_mul":
+        return g.raw_mul(a)
+    if prod == "mul":
+        return a * mk(c.G)
+    if prod == "add":
+        return mk(c.add(V, c.neg(c.G))) + g
+    if prod == "sub":
+        return mk(c.add(V, c.G)) - g
+    if prod == "neg":
+        return -mk(c.neg(V))
+    if prod == "ecdh":
+        return gspk(a, c.G, g)
+    if prod == "gobj":
+        return g
+    if prod == "infinity":
+        return g.infinity()
+    if prod == "zero_mul":
+        return 0 * mk(c.G)
+    if prod == "order_mul":
+        return g * c.n
+    if prod == "point_none":
+        return g.Point(None, None)          # "the point at infinity is (x, y) == (None, None)": a fresh object, not g.infinity()
+    raise KeyError(prod)
+
+
+def chain_pool(ctx, rng):
+    """a few (scalar, scalar*G) pairs of the reference, made once per generator: the chain cases draw their values from
+    it, so that a case costs affine additions of the reference instead of ladders"""
+    if not getattr(ctx, "pool", None):
+        c = ctx.c
+        ctx.pool = [(s_, c.mul(s_, c.G)) for s_ in [1, 2, c.n - 1] + [rng.randrange(1, c.n) for _ in range(9)]]
+    return ctx.pool
+
+
+def chain_scalar(ctx, rng, prod):
+    """(a, a*G) for the producer: the scalar class varies (negative, >= order) where the producer takes any integer"""
+    c, n = ctx.c, ctx.c.n
+    if prod == "gobj":
+        return 1, c.G
+    if prod in ("infinity", "zero_mul", "order_mul", "point_none"):
+        return 0, None
+    a, V = rng.choice(chain_pool(ctx, rng))
+    if prod in ("Point", "lift", "ecdh"):
+        return a, V
+    return a + n * rng.choice([0, 0, -1, 1, 2, -3]), V
+
+
+def small_multiple(c, b, V):
+    """b*V for a scalar that is close to a multiple of the order (|b mod n| small): a short ladder"""
+    bs = b % c.n
+    return c.mul(bs, V) if bs <= c.n // 2 else c.neg(c.mul(c.n - bs, V))
+
+
+def judge_chain(ctx, case):
+    rec, c, g = ctx.rec, ctx.c, ctx.g
+    from pycoin.ecdsa.encrypt import generate_shared_public_key as gspk
+    prod, cons, a, b, sib = case["prod"], case["cons"], case["a"], case["b"], case.get("sibling")
+    rec.ev("chain")
+    rec.ev("class:nongeneric")
+    rec.case(("chain", ctx.curve_id, ctx.cfg, prod, cons, a, b, sib))
+    gp = g
+    if sib == "entropy":
+        st, gb = observe(blinded_generator, ctx, case.get("entropy", 1))
+        if st != "ok":
+            return
+        gp = gb[0]
+    elif sib == "inproc":
+        gp = get_ctx(ctx.curve_id, "inproc", rec).g
+    V = tuple(case["V"]) if case.get("V") else (None if "V" in case else c.mul(a, c.G))
+    st, P = observe(produce, ctx, gp, prod, a, V)
+    if st != "ok" or from_py(P) != V:
+        # the producing operation itself is wrong: the plain judges report that under their own keys
+        rec.ev("chain.producer_failed")
+        return
+    scalar_consumer = cons in ("mul", "rmul", "ecdh")
+    W = None if scalar_consumer else tuple(case["W"]) if case.get("W") else c.mul(b, c.G)
+    st, Q = observe(to_py, ctx, W)
+    if st != "ok":
+        return
+    if cons == "add":
+        f, exp = (lambda: P + Q), c.add(V, W)
+    elif cons == "radd":
+        f, exp = (lambda: Q + P), c.add(V, W)
+    elif cons == "sub":
+        f, exp = (lambda: P - Q), c.add(V, c.neg(W))
+    elif cons == "rsub":
+        f, exp = (lambda: Q - P), c.add(W, c.neg(V))
+    elif cons == "neg":
+        f, exp = (lambda: -P), c.neg(V)
+    elif cons == "mul":
+        f, exp = (lambda: b * P), small_multiple(c, b, V)
+    elif cons == "rmul":
+        f, exp = (lambda: P * b), small_multiple(c, b, V)
+    elif cons == "ecdh":
+        f, exp = (lambda: gspk(b, P, g)), small_multiple(c, b, V)
+    elif cons == "construct":
+        f, exp = (lambda: g.Point(P[0], P[1])), V
+    elif cons == "double":
+        f, exp = (lambda: P + P), c.add(V, V)
+    else:       # lift: the x of the produced point gives back the point and its inverse, even y first
+        if V is None:
+            return
+        f = lambda: tuple(from_py(T) for T in g.points_for_x(P[0]))
+        exp = c.lift_x(V[0])
+    cev(ctx, "chain.prod." + prod)
+    cev(ctx, "chain.cons." + cons)
+    if sib:
+        cev(ctx, "chain.sibling_object")
+    st, got = observe(f)
+    if st != "ok":
+        if sib and gp is not g:
+            rec.ev("chain.sibling_refused")      # mixing objects of two equal curves: the statement does not oblige it
+        else:
+            rec.violation("chain.raises.%s->%s" % (prod, cons), case, got, exp)
+        return
+    got = got if cons == "lift" else from_py(got)
+    if got != exp:
+        rec.violation("chain.wrong.%s->%s" % (prod, cons), case, got, exp)
+
+
+def chain_round(ctx, rng, combos, sibling=None):
+    n = ctx.c.n
+    L = lambda P: list(P) if P else None
+    for prod, cons in combos:
+        a, V = chain_scalar(ctx, rng, prod)
+        if cons in ("mul", "rmul", "ecdh"):
+            # scalars a short ladder away from a multiple of the order: small, negative, just below / above the order
+            b = rng.randrange(1, 4096) * rng.choice([1, 1, -1]) + n * rng.choice([0, 0, 1, -1, 2])
+            kw = {"V": L(V)}
+        else:
+            b, W = rng.choice(chain_pool(ctx, rng))
+            kw = {"V": L(V), "W": L(W)}
+        if sibling == "entropy":
+            kw.update({"sibling": "entropy", "entropy": rng.choice(ENTROPIES(n))})
+        elif sibling:
+            kw.update({"sibling": sibling})
+        judge_chain(ctx, base_case(ctx, "chain", prod=prod, cons=cons, a=a, b=b, **kw))
+
+
+def require_chain(ctx):
+    ctx.rec.require(*[ctx.tag + "|chain.prod." + x for x in PRODUCERS])
+    ctx.rec.require(*[ctx.tag + "|chain.cons." + x for x in CONSUMERS])
+    ctx.rec.require(ctx.tag + "|chain.sibling_object")
+
+
+# ---------------------------------------------------------------------------------------------
+# class D (2): two live generators of DIFFERENT curves whose base points have the same coordinates (a Generator is a tuple
+# subclass: it hashes and compares by value), and two distinct generator objects of the same curve and base point. The same
+# question is put to the first and then to the second; each must answer for ITS curve.
+
+_TWINS = {}
+
+
+def twin_pair(case):
+    from pycoin.ecdsa.Generator import Generator
+    key = (tuple(case["A"]), tuple(case["B"]))
+    if key not in _TWINS:
+        out = []
+        for (p, a, b, hx, hy, n) in key:
+            out.append((ec.Curve(p, a, b, (hx, hy), n, "toy(p=%d,a=%d,b=%d,n=%d)" % (p, a, b, n)), Generator(p, a, b, (hx, hy), n)))
+        _TWINS[key] = out
+    return _TWINS[key]
+
+
+def twin_answer(c, g, op, args):
+    """(observed, expected) of one question put to one generator; exceptions of the library are part of `observed`."""
+    from pycoin.ecdsa.encrypt import generate_shared_public_key as gspk
+    H = c.G
+    if op == "gmul":
+        k = args[0]
+        return [from_py(g * k), from_py(k * g), from_py(g.raw_mul(k))], [c.mul(k, H)] * 3
+    if op == "mul":
+        k = args[0]
+        P = g.Point(H[0], H[1])
+        return [from_py(k * P), from_py(P * k)], [c.mul(k, H)] * 2
+    if op == "lift":
+        st, got = observe(g.points_for_x, args[0])
+        return ("none" if st != "ok" else tuple(from_py(T) for T in got)), (c.lift_x(args[0]) or "none")
+    if op == "construct":
+        x, y = args
+        st, _ = observe(g.Point, x, y)
+        return [st == "ok", bool(g.contains_point(x, y))], [c.on_curve((x, y))] * 2
+    if op == "add":
+        P = g.Point(H[0], H[1])
+        H2 = c.add(H, H)
+        return ([from_py(P + P), from_py(g + P), from_py(P + g), from_py(g + g), from_py(g - g), from_py(g - P), from_py(-g), from_py(-P),
+                 from_py((g + g) + g)], [H2, H2, H2, H2, None, None, c.neg(H), c.neg(H), c.add(H2, H)])
+    if op == "ecdh":
+        k = args[0]
+        return from_py(gspk(k, H, g)), c.mul(k, H)
+    if op == "inverse_mod":
+        a, m = args
+        return g.inverse_mod(a, m) * a % m, 1
+    raise KeyError(op)
+
+
+def judge_twin(ctx, case):
+    rec = ctx.rec
+    pair = twin_pair(case)
+    order = [0, 1] if case["order"] == "AB" else [1, 0]
+    op, args = case["op"], [int(v) for v in case["args"]]
+    rec.ev("twin." + op)
+    rec.ev("twin.flavour." + case["flavour"])
+    rec.ev("class:nongeneric")
+    rec.case(("twin", tuple(case["A"]), tuple(case["B"]), op, tuple(args), case["order"]))
+    bad = []
+    for pos, i in enumerate(order):
+        c, g = pair[i]
+        st, r = observe(twin_answer, c, g, op, args)
+        if st != "ok":
+            bad.append((pos, "raises", r, None))
+        elif r[0] != r[1]:
+            bad.append((pos, "wrong", r[0], r[1]))
+    if bad:
+        pos, how, got, exp = bad[0]
+        second_only = len(bad) == 1 and pos == 1
+        rec.violation("twin.%s.%s%s" % (op, how, "_on_second_asked" if second_only else ""), case, got, exp)
+
+
+TWIN_FLAVOURS = ["same_field", "other_field", "same_curve_two_objects"]
+
+
+def run_twins(spec, rec, rng):
+    rec.require(*["twin.flavour." + f for f in TWIN_FLAVOURS])
+    rec.require(*["twin." + op for op in ("gmul", "mul", "lift", "construct", "add", "ecdh", "inverse_mod")])
+    for ti, tw in enumerate(spec["twins"]):
+        A, B, flavour = tw["A"], tw["B"], tw["flavour"]
+        pa, pb, na, nb = A[0], B[0], A[5], B[5]
+        pm, nm = min(pa, pb), max(na, nb)
+        tctx = _TwinCtx(rec)
+        mk = lambda op, args, order: judge_twin(tctx, {"kind": "twin", "A": A, "B": B, "flavour": flavour, "op": op, "args": list(args), "order": order})
+        ks = sorted(set(rng.sample(range(-nm, 2 * nm + 1), min(24, 3 * nm)) + [0, 1, -1, na, nb, na - 1, nb - 1]))
+        for j, k in enumerate(ks):
+            mk("gmul", [k], "AB" if j % 2 else "BA")
+            mk("mul", [k], "BA" if j % 2 else "AB")
+        for x in range(pm):
+            mk("lift", [x], "AB" if (x + ti) % 2 else "BA")
+        for j in range(80):
+            x, y = (rng.randrange(pm), rng.randrange(pm)) if j % 4 else tuple(A[3:5])
+            mk("construct", [x, y], "AB" if j % 2 else "BA")
+        mk("add", [], "AB")
+        mk("add", [], "BA")
+        for j in range(8):
+            mk("ecdh", [rng.randrange(1, 2 * nm)], "AB" if j % 2 else "BA")
+            m = rng.choice([pa, pb, na, nb])
+            mk("inverse_mod", [rng.randrange(1, m), m], "BA" if j % 2 else "AB")
+        # the same questions once more, the other generator first (whichever answered first before is now second)
+        for j, k in enumerate(ks[:12]):
+            mk("gmul", [k], "BA" if j % 2 else "AB")
+        for x in range(0, pm, 3):
+            mk("lift", [x], "BA" if (x + ti) % 2 else "AB")
+
+
+class _TwinCtx:
+    def __init__(self, rec):
+        self.rec = rec
+
+
+# ---------------------------------------------------------------------------------------------
+# class B: more than 2^16 operations on ONE generator object in one process, each judged against a running sum of the
+# reference (k moves by one of a few fixed steps d, the expected point by the precomputed d*G: one affine addition)
+
+LONGRUN_MAX_VIOLATIONS = 3
+
+
+def judge_longrun(ctx, case):
+    import random
+    rec, c, g = ctx.rec, ctx.c, ctx.g
+    n, p = c.n, c.p
+    N = case["count"]
+    r = random.Random(case["lr_seed"])
+    steps = [1, 2, 3, r.randrange(1, n), -r.randrange(1, n), r.randrange(n, 1 << 260), -1, (n - 1) // 2, r.randrange(1, 1 << 32), -r.randrange(1, 1 << 64)]
+    D = [c.mul(d, c.G) for d in steps]
+    st, Dlib = observe(lambda: [to_py(ctx, T) for T in D])
+    k = r.randrange(1, n)
+    exp = c.mul(k, c.G)
+    st2, acc = observe(to_py, ctx, exp)
+    if st != "ok" or st2 != "ok":
+        rec.violation("construct.rejects_on_curve", dict(case, index=0), [Dlib, acc], "points")
+        return
+    nviol = 0
+    done = 0
+    tag = ctx.tag + "|"
+    counts = {"gmul": 0, "rmul": 0, "add": 0, "neg": 0, "construct": 0, "lift": 0}
+
+    def bad(mech, i, got, want):
+        rec.violation(mech, dict(case, count=i + 2, index=i, k=k), got, want)
+        return 1
+
+    for i in range(1, N + 1):
+        j = r.randrange(len(steps))
+        k += steps[j]
+        exp = c.add(exp, D[j])
+        if i & 1023 == 0:
+            k += n * r.choice((-3, -2, -1, 1, 2, 3))
+        # G*k on the one object (every 64th time through k*G)
+        if i & 63:
+            st, got = observe(lambda: g * k)
+            counts["gmul"] += 1
+        else:
+            st, got = observe(lambda: k * g)
+            counts["rmul"] += 1
+        if st != "ok":
+            nviol += bad("longrun.gmul.raises", i, got, exp)
+        elif from_py(got) != exp:
+            nviol += bad("longrun.gmul.wrong", i, from_py(got), exp)
+        # the library's own running sum: one Point addition per step, on points of the same object
+        st, acc2 = observe(lambda: acc + Dlib[j])
+        counts["add"] += 1
+        if st != "ok" or from_py(acc2) != exp:
+            nviol += bad("longrun.add.wrong", i, acc2 if st != "ok" else from_py(acc2), exp)
+            st, acc2 = observe(to_py, ctx, exp)
+            if st != "ok":
+                nviol += bad("longrun.construct.rejects_on_curve", i, acc2, exp)
+                break
+        acc = acc2
+        if exp is not None:
+            st, fresh = observe(g.Point, exp[0], exp[1])
+            counts["construct"] += 1
+            if st != "ok":
+                nviol += bad("longrun.construct.rejects_on_curve", i, fresh, exp)
+            st, neg = observe(lambda: -acc)
+            counts["neg"] += 1
+            if st != "ok" or from_py(neg) != c.neg(exp):
+                nviol += bad("longrun.neg.wrong", i, neg if st != "ok" else from_py(neg), c.neg(exp))
+            if i & 15 == 0:
+                st, pts = observe(lambda: tuple(from_py(T) for T in g.points_for_x(exp[0])))
+                counts["lift"] += 1
+                want = (exp, c.neg(exp)) if exp[1] % 2 == 0 else (c.neg(exp), exp)
+                if st != "ok" or pts != want:
+                    nviol += bad("longrun.lift.wrong", i, pts, want)
+        done = i
+        if i & 8191 == 0 or i == N:
+            if c.mul(k, c.G) != exp:
+                rec.ev("inconclusive:longrun_running_sum_disagrees_with_ladder")
+                rec.note("long run: running sum of the reference and its ladder disagree at index %d" % i)
+                return
+        if nviol >= LONGRUN_MAX_VIOLATIONS:
+            break
+    rec.case(("longrun", ctx.curve_id, ctx.cfg, case["lr_seed"], N), n=done)
+    rec.ev("Generator.__mul__(blinded)", counts["gmul"] + counts["rmul"])
+    rec.ev("Point.__add__", counts["add"])
+    rec.ev("Point.__neg__", counts["neg"])
+    rec.ev("Point()", counts["construct"])
+    rec.ev("Generator.points_for_x", counts["lift"])
+    rec.ev("longrun.products_on_one_object", counts["gmul"] + counts["rmul"])
+    rec.ev("class:nongeneric", done)
+    if done > (1 << 16) + 64 and nviol == 0:
+        rec.ev("longrun.past_2^16_products_on_one_object")
+        rec.ev(tag + "longrun.past_2^16_products_on_one_object")
+    if done > (1 << 17) + 64 and nviol == 0:
+        rec.ev("longrun.past_2^17_products_on_one_object")
+
+
+def run_longrun(spec, rec):
+    rng = shard_rng(spec["seed"], PROPERTY, spec["tier"], spec["shard"])
+    ctx = get_ctx(spec["curve"], "module", rec)
+    if not ctx.native:
+        # no accelerated backend on this machine: 2^16 pure-Python products on a 256-bit curve do not fit the budget;
+        # the long run is made on the pure generator of the largest toy curve instead (same Generator code)
+        toys = ec.toy_curves(80)
+        big = max(toys, key=lambda t: (t.n, t.p, t.a, t.b))
+        ctx = get_ctx(_toy_params(big), "inproc", rec)
+        rec.note("long run on a toy curve: module generator of %s has no native backend here" % spec["curve"])
+        rec.ev("longrun.on_toy_curve")
+    rec.ev("config:" + spec.get("label", "longrun"))
+    rec.require("longrun.past_2^16_products_on_one_object")
+    if spec["count"] > (1 << 17):
+        rec.require("longrun.past_2^17_products_on_one_object")
+    judge_longrun(ctx, base_case(ctx, "longrun", lr_seed=rng.randrange(1 << 62), count=spec["count"]))
+
+
+# ---------------------------------------------------------------------------------------------
+# "state" shard: toy curves; full producer x consumer matrix, mutable arguments, twins
+
+def run_state(spec, rec):
+    rng = shard_rng(spec["seed"], PROPERTY, spec["tier"], spec["shard"])
+    for params in spec["curves"]:
+        ctx = get_ctx(params, "inproc", rec)
+        rec.ev("state_curves")
+        n = ctx.c.n
+        combos = [(pr, co) for pr in PRODUCERS for co in CONSUMERS]
+        chain_round(ctx, rng, combos)
+        chain_round(ctx, rng, combos, sibling="entropy")
+        require_chain(ctx)
+        for rnd in range(4):
+            mutable_round(ctx, rng, rnd)
+            errpath_round(ctx, rng, rnd, ent=ENTROPIES(n)[rnd % 5])
+        ctx.rec.require(*[ctx.tag + "|errpath." + f for f in ERR_FAMILIES])
+        ctx.rec.require(ctx.tag + "|mutable.calls")
+        _CTX.pop((repr(params), "inproc"), None)
+    run_twins(spec, rec, rng)
+
+
 JUDGES = {"add": judge_add, "neg": judge_neg, "sub": judge_sub, "mul": judge_mul, "gmul": judge_gmul, "lift": judge_lift,
           "construct": judge_construct, "ecdh": judge_ecdh, "inverse_mod": judge_inverse_mod, "laws": judge_laws,
-          "backend": judge_backend}
+          "backend": judge_backend, "mutable": judge_mutable, "chain": judge_chain,
+          "longrun": judge_longrun}
 
 
 # ---------------------------------------------------------------------------------------------
@@ -717,6 +1465,8 @@ def run_toy_curve(params, rec, rng, light=False):
     for P in pts:
         for k in range(-2 * n, 3 * n + 1):
             judge_mul(ctx, base_case(ctx, "mul", P=list(P) if P else None, k=k), exp=multiples[P][k % n] if P else None)
+    # refused calls (non-integer scalars, non-points, ...) first: the exhaustive G*k below runs on the same objects
+    errpath_round(ctx, rng, rng.randrange(12), ent=rng.choice(ENTROPIES(n)))
     # G*k (blinded), raw_mul(k) on the default generator and on generators built with adversarial entropy
     ents = [None] + ENTROPIES(n)
     if n > 40:
@@ -770,6 +1520,8 @@ def run_toy_curve(params, rec, rng, light=False):
     for m in (p, n):
         for a in range(-2 * m, 3 * m + 1):
             judge_inverse_mod(ctx, base_case(ctx, "inverse_mod", a=a, m=m))
+    errpath_round(ctx, rng, rng.randrange(12), ent=None)
+    mutable_round(ctx, rng, 0, basis=not light)
     # laws on the library's own results
     for i in range(12 if light else 40):
         P, Q, R = rng.choice(pts), rng.choice(pts), rng.choice(pts)
@@ -794,6 +1546,7 @@ def run_toy(spec, rec):
     for i, params in enumerate(spec["curves"]):
         ctx = run_toy_curve(params, rec, rng, light=spec["tier"] == "quick" and params[5] > 13)
         require_classes(ctx)
+        require_state_classes(ctx)
         if i == 0:
             rec.sample({"toy_curve": ctx.c.name, "G": list(ctx.c.G), "exhaustive": "P+Q all pairs; k*P k in [-2n,3n]; points_for_x all x; "
                         "Point(x,y) all (x,y); ECDH all pairs; G*k with entropy 0,1,n-1,n,2^256-1"})
@@ -930,6 +1683,8 @@ def run_big(spec, rec):
     # multiples of G there (points_for_x / Point() are still exercised on every curve point)
     sub_only = spec["curve"] == "bls12_381_g1"
     require_classes(ctx)
+    require_state_classes(ctx)
+    require_chain(ctx)
     if spec.get("cross") and (ctx.native or libcrypto_findable()):
         # a default worker on a machine that has libcrypto: the OpenSSL configuration of the statement must really have run
         rec.require("backend_cross_check", "config_active:openssl")
@@ -938,6 +1693,7 @@ def run_big(spec, rec):
     L = lambda P: list(P) if P else None
     N = spec["ops"]
     ents = ENTROPIES(n) + [rng.randrange(1 << 256)]
+    shard_no = int(spec.get("shard") or 0)
     # points with small / adjacent x (arbitrary curve points: not usable as operands where the group is a proper subgroup)
     smallpts = [] if sub_only else small_x_points(c, rng)
     edgepts = [T for T in smallpts if T[0] < NEAR or p - T[0] < NEAR]
@@ -1043,6 +1799,18 @@ def run_big(spec, rec):
             if spec.get("cross") and rnd < spec["cross"] and ctx.native:
                 k, pat = rnd_scalar(c, rng, fixed, pats)
                 judge_backend(ctx, base_case(ctx, "backend", P=L(P), k=k))
+            # refused calls between the judged ones (same objects, same process), caller-owned lists, and points
+            # produced by one operation handed to another
+            errpath_round(ctx, rng, rnd + shard_no, ent=ents[(rnd + shard_no) % len(ents)] if rnd % 2 else None)
+            if rnd % 4 == 0:
+                mutable_round(ctx, rng, rnd, basis=rnd == 0)
+            if ctx.native and rnd < 2:
+                combos = [(pr, co) for pr in PRODUCERS for co in CONSUMERS]
+                chain_round(ctx, rng, combos, sibling="entropy" if rnd else None)
+            else:
+                off = rnd + shard_no
+                combos = [(PRODUCERS[j], CONSUMERS[(j + off) % len(CONSUMERS)]) for j in range(len(PRODUCERS))]
+                chain_round(ctx, rng, combos, sibling="inproc" if ctx.native and rnd == 2 else "entropy" if off % 2 else None)
         if i < 2:
             rec.sample({"config": spec.get("label"), "first_ops": "add/mul/gmul/lift/construct/ecdh/inverse_mod/laws/backend rotation",
                         "P": L(P)})
@@ -1059,7 +1827,7 @@ def run_shard(spec, rec):
         if kind == "memcheck":
             memcheck.run(spec, rec, PROPERTY)
         else:
-            {"big": run_big, "toy": run_toy}[kind](spec, rec)
+            {"big": run_big, "toy": run_toy, "longrun": run_longrun, "state": run_state}[kind](spec, rec)
     except GeneratorUnavailable:
         rec.case(("generator_unavailable", spec.get("curve"), spec.get("gen")))
     finally:
@@ -1071,6 +1839,9 @@ def replay_case(case, rec):
     if kind in ("memcheck", "memcheck_value"):
         memcheck.replay(case, rec, PROPERTY)
         return
+    if kind == "twin":
+        judge_twin(_TwinCtx(rec), dict(case, A=[int(v) for v in case["A"]], B=[int(v) for v in case["B"]]))
+        return
     curve = case["curve"]
     if isinstance(curve, list):
         curve = [int(v) for v in curve]
@@ -1080,4 +1851,5 @@ def replay_case(case, rec):
         return
     if kind == "import":
         return
+    replay_refusals(ctx, case)
     JUDGES[kind](ctx, dict(case, curve=curve))
